@@ -1769,10 +1769,11 @@ impl<'a> UserModel<'a> {
         value: &str,
     ) -> Result<(), String> {
         let mut diff_list = Vec::new();
+        let formula_marks = self.formula_marks();
         if let Err(e) = self.update_range_style_inner(range, style_path, value, &mut diff_list) {
             // the value can be valid for some cells and invalid for others (a size
             // delta, for one): nothing of a rejected call must stay behind
-            self.rollback(&diff_list);
+            self.rollback(&diff_list, &formula_marks);
             return Err(e);
         }
         self.push_diff_list(diff_list);
@@ -2421,8 +2422,31 @@ impl<'a> UserModel<'a> {
 
     /// Undoes the changes recorded so far in `diff_list` when an operation fails
     /// half way, so that a rejected call leaves the workbook as it was.
-    pub(super) fn rollback(&mut self, diff_list: &DiffList) {
+    ///
+    /// `formula_marks` (see [`UserModel::formula_marks`]) is the size of each sheet's
+    /// formula table when the operation started: formulas the failed operation added
+    /// are dropped again. Cells are replicated with their formula index, so the tables
+    /// of a model that went through a rejected call must stay those of one that did not.
+    pub(super) fn rollback(&mut self, diff_list: &DiffList, formula_marks: &[usize]) {
         let _ = self.apply_undo_diff_list(diff_list);
+        for (sheet, len) in formula_marks.iter().enumerate() {
+            if let Some(ws) = self.model.workbook.worksheets.get_mut(sheet) {
+                ws.shared_formulas.truncate(*len);
+            }
+            if let Some(parsed) = self.model.parsed_formulas.get_mut(sheet) {
+                parsed.truncate(*len);
+            }
+        }
+    }
+
+    /// Number of formulas in the table of every sheet
+    pub(super) fn formula_marks(&self) -> Vec<usize> {
+        self.model
+            .workbook
+            .worksheets
+            .iter()
+            .map(|ws| ws.shared_formulas.len())
+            .collect()
     }
 
     pub(crate) fn push_diff_list(&mut self, diff_list: DiffList) {
